@@ -720,15 +720,21 @@ int tls_client_key_shares_from_bytes(SM2_Z256_POINT *sm2_point, const uint8_t **
 	const uint8_t *key_shares;
 	size_t key_shares_len;
 
-	tls_uint16array_from_bytes(&key_shares, &key_shares_len, in, inlen);
+	if (tls_uint16array_from_bytes(&key_shares, &key_shares_len, in, inlen) != 1) {
+		error_print();
+		return -1;
+	}
 
 	while (key_shares_len) {
 		uint16_t group;
 		const uint8_t *key_exch;
 		size_t key_exch_len;
 
-		tls_uint16_from_bytes(&group, &key_shares, &key_shares_len);
-		tls_uint16array_from_bytes(&key_exch, &key_exch_len, &key_shares, &key_shares_len);
+		if (tls_uint16_from_bytes(&group, &key_shares, &key_shares_len) != 1
+			|| tls_uint16array_from_bytes(&key_exch, &key_exch_len, &key_shares, &key_shares_len) != 1) {
+			error_print();
+			return -1;
+		}
 
 		if (key_exch_len != 65) {
 			error_print();
@@ -737,7 +743,10 @@ int tls_client_key_shares_from_bytes(SM2_Z256_POINT *sm2_point, const uint8_t **
 
 		switch (group) {
 		case TLS_curve_sm2p256v1:
-			sm2_z256_point_from_octets(sm2_point, key_exch, key_exch_len);
+			if (sm2_z256_point_from_octets(sm2_point, key_exch, key_exch_len) != 1) {
+				error_print();
+				return -1;
+			}
 			break;
 		default:
 			error_print();
@@ -757,8 +766,11 @@ int tls13_server_hello_extensions_get(const uint8_t *exts, size_t extslen, SM2_Z
 		const uint8_t *ext_data;
 		size_t ext_datalen;
 
-		tls_uint16_from_bytes(&ext_type, &exts, &extslen);
-		tls_uint16array_from_bytes(&ext_data, &ext_datalen, &exts, &extslen);
+		if (tls_uint16_from_bytes(&ext_type, &exts, &extslen) != 1
+			|| tls_uint16array_from_bytes(&ext_data, &ext_datalen, &exts, &extslen) != 1) {
+			error_print();
+			return -1;
+		}
 
 		switch (ext_type) {
 		case TLS_extension_supported_versions:
@@ -917,8 +929,12 @@ int tls13_record_get_handshake_certificate_verify(const uint8_t *record,
 		return -1;
 	}
 
-	tls_uint16_from_bytes(&alg, &p, &len);
-	tls_uint16array_from_bytes(sig, siglen, &p, &len);
+	if (tls_uint16_from_bytes(&alg, &p, &len) != 1
+		|| tls_uint16array_from_bytes(sig, siglen, &p, &len) != 1
+		|| tls_length_is_zero(len) != 1) {
+		error_print();
+		return -1;
+	}
 	*sign_algor = alg;
 
 	return 1;
